@@ -169,6 +169,10 @@ def _recover_and_verify(cfg, root, base, e):
         exp = {"tag": base[b - 1]["snap"]["tag"], "w": base[b - 1]["snap"]["w"]}
         if got != exp:
             raise _Fail("load_best", "model loaded for the best epoch is not the model saved for it", got, exp, best=b)
+        got = _lib("load_best", lambda: _load_epoch(ctl, cfg, b, 13), best=b)
+        if got != base[b - 1]["snap"]:
+            raise _Fail("load_best", "model + optimizer loaded for the best epoch are not the states saved for it", got,
+                        base[b - 1]["snap"], best=b)
     # --- continue training to the end
     s.model, s.opt = m, o
     conts = []
@@ -221,7 +225,7 @@ def _crash_point(cfg, root, base, e, k, when):
     if inj.events != base[e - 1]["events"][: k + 1]:
         raise RuntimeError("harness: event sequence not reproducible: %r vs %r" % (inj.events, base[e - 1]["events"]))
     del s
-    done = base[e - 1]["events"][: k + (1 if when == "after" else 0)]
+    done = inj.events[: k + (1 if when == "after" else 0)]
     try:
         _recover_and_verify(cfg, root, base, e)
     except _Fail as f:
@@ -237,7 +241,8 @@ def _enumerate(cfg, second=None):
     with T.scratch() as root, T.quiet():
         u = os.path.join(root, "u")
         os.mkdir(u)
-        base = _uninterrupted(cfg, u)
+        with T.in_dir(u):
+            base = _uninterrupted(cfg, ".")
         idx = 0
         for e in range(1, len(base) + 1):
             ev = base[e - 1]["events"]
@@ -248,7 +253,8 @@ def _enumerate(cfg, second=None):
                     idx += 1
                     d = os.path.join(root, "c%d" % idx)
                     os.mkdir(d)
-                    f = _crash_point(cfg, d, base, e, k, when)
+                    with T.in_dir(d):
+                        f = _crash_point(cfg, ".", base, e, k, when)
                     points += 1
                     # strictly between the first and the last mutating call
                     inside = (k > 0 or when == "after") and (k < K - 1 or when == "before")
@@ -364,6 +370,96 @@ subcheck("C16", "crash_enum_small", _enum_small, 0, 0, exhaustive=True,
          doc="EVERY validation-metric pattern of length <= 3|4 over {1,2,3} (all best/last/tie structures) x both keep modes, "
              "default formats, and for each EVERY crash point",
          required_classes=["interior_crash_with_delete"], timeout_s=6000)(_crash_check)
+
+
+# ---------------------------------------------------------------- two crashes in a row (fault sequences)
+
+
+@st.composite
+def _double_case(draw, tier):
+    cfg = draw(c15_config(4 if tier == "quick" else 6, fmts=EPOCH_FMTS, keep=None))
+    cfg["crash1"] = [draw(st.integers(0, 5)), draw(st.integers(0, 15)), draw(st.sampled_from(["before", "after"]))]
+    # the second crash: the k-th mutating call of the *continued* run (small k: inside the repeated update)
+    cfg["crash2"] = [draw(st.one_of(st.integers(0, 13), st.integers(0, 40))), draw(st.sampled_from(["before", "after"]))]
+    return cfg
+
+
+def _double_strategy(tier):
+    return _double_case(tier)
+
+
+@subcheck("C16", "crash_twice", _double_strategy, quick=400, thorough=12000,
+          doc="fault sequences: generated history, a generated crash point, recovery, then a second generated crash point in "
+              "the continued run (often inside the repeated update, which now meets the files the first crash left); "
+              "after the second crash the same oracle as for a single crash",
+          required_classes=["second_crash_in_repeated_update", "second_crash_later"], timeout_s=6000)
+def _double_check(case):
+    cfg = case
+    _check_domain(cfg)
+    classes = ["keep_last_and_best" if cfg["keep"] else "keep_everything"]
+    with T.scratch() as root, T.quiet():
+        u, d = os.path.join(root, "u"), os.path.join(root, "d")
+        os.mkdir(u)
+        os.mkdir(d)
+        with T.in_dir(u):
+            base = _uninterrupted(cfg, ".", check_dir=False)
+        e1 = cfg["crash1"][0] % len(base) + 1
+        K = len(base[e1 - 1]["events"])
+        k1, when1 = cfg["crash1"][1] % K, cfg["crash1"][2]
+        with T.in_dir(d):
+            s = _replay_until(cfg, ".", e1)
+            inj = T.FaultInjector(k1, when1)
+            try:
+                with inj.installed():
+                    s.epoch(cfg["train"][e1 - 1], cfg["val"][e1 - 1])
+            except T.Crash:
+                pass
+            else:
+                raise RuntimeError("harness: first crash point not reached")
+            done1 = ["%s:%s" % tuple(x) for x in inj.events[: k1 + (1 if when1 == "after" else 0)]]
+            del s
+            # recovery as a training script does it, then continue under a second injector
+            s = T.Session(cfg, ".")
+            s.start(scramble=5)
+            L = s.ctl.get_last_epoch()
+            require(L in (e1 - 1, e1), "recovered history ends at an unexpected epoch", L, [e1 - 1, e1])
+            first_redo = L + 1
+            inj2 = T.FaultInjector(cfg["crash2"][0], cfg["crash2"][1])
+            e2 = None
+            n_total = len(cfg["val"])
+            try:
+                with inj2.installed():
+                    while L < n_total and s.ctl.continue_training():
+                        e2 = L + 1
+                        s.epoch(cfg["train"][L], cfg["val"][L])
+                        L += 1
+                    e2 = None
+            except T.Crash:
+                pass
+            del s
+            if e2 is None:
+                classes.append("second_crash_not_reached")
+                e_chk = len(base)
+            else:
+                classes.append("second_crash_in_repeated_update" if e2 == first_redo and e2 == e1 else "second_crash_later")
+                e_chk = e2
+            done2 = ["%s:%s" % tuple(x) for x in inj2.events[: (inj2.crash_at or 0) + (1 if inj2.when == "after" else 0)]]
+            if e2 is None:
+                # nothing died the second time: the run is complete
+                ctl = T.make_controller(cfg, "./hist.csv", "./states")
+                require(ctl.get_last_epoch() == len(base), "continued run ends at another epoch", ctl.get_last_epoch(), len(base))
+                e_chk = len(base)
+            try:
+                _recover_and_verify(cfg, ".", base, e_chk if e2 is not None else len(base))
+            except _Fail as f:
+                raise Violation(
+                    "crash %s event %d of update %d (%s), recovery, then crash in update %s after %s -> %s: %s" % (
+                        when1, k1, e1, done1[-1:] or "nothing done", e2, done2[-3:] or "nothing", f.rec["stage"], f.rec["what"]),
+                    observed={"first": f.rec["observed"], "stage": f.rec["stage"], "crash1": {"epoch": e1, "done": done1},
+                              "crash2": {"epoch": e2, "done": done2}, "exc": f.rec.get("exc"),
+                              "recorded_last": f.rec.get("recorded_last")},
+                    expected=f.rec["expected"])
+    return Info(nontrivial=e2 is not None, classes=classes)
 
 
 # ---------------------------------------------------------------- crash-free directory contents
